@@ -77,7 +77,19 @@ theorem binS_sound (w : World) (chk : Bool) (op : BinOp) {x y : SVal} {vx vy : V
       | shr =>
         simp only [binS] at h
         split at h
-        · exact absurd h (by simp)
+        · rename_i hsg
+          split at h
+          · rename_i sv hs
+            split at h
+            · rename_i hlt
+              injection h with h; subst h
+              rw [isConst_den _ _ _ _ hs]
+              simp only [evalBin, hsg, hlt, if_true]
+              refine ⟨_, rfl, ?_, ?_⟩
+              · simp [hla]; omega
+              · rw [den_sar _ _ hla hlt]
+            · exact absurd h (by simp)
+          · exact absurd h (by simp)
         · rename_i hsg
           split at h
           · rename_i sv hs
